@@ -1,4 +1,5 @@
 import IgrisModel.C14.Model
+import IgrisModel.C14.Access   -- core Lean only: operator[] / front / back
 import IgrisModel.C14.Exc      -- core Lean only: the member functions with a throwing element constructor
 import IgrisModel.C14.Lemmas   -- core Lean only; for the reference machines `specStep` / `specSStep`
 open Igris.Proto Igris.C14
@@ -179,6 +180,39 @@ def stepLine (st : St) (line : String) : St × String :=
                 | .ok (m', some ev, t) =>
                     (.sv c m', s!"{showRegs c m'} | {showEvents c ev} | {toString (m'.nctor - m'.ndtor)} | {if t then "threw" else "done"}")
             | _, _ => (st, "bad-op")
+        | ["at", r, i] =>
+            match r.toNat?, i.toNat? with
+            | some r, some i =>
+                match decide (r < c.K), m.regs r with
+                | true, some v =>
+                    if i < v.size then
+                      match v.at i with
+                      | .ok e => (st, showElem e)
+                      | .error f => (.dead, showFault f)
+                    else (st, "bad")
+                | _, _ => (st, "bad")
+            | _, _ => (st, "bad-op")
+        | [acc, r] =>
+            if acc == "front" || acc == "back" then
+              match r.toNat? with
+              | some r =>
+                  match decide (r < c.K), m.regs r with
+                  | true, some v =>
+                      if 0 < v.size then
+                        match (if acc == "front" then v.front else v.back) with
+                        | .ok e => (st, showElem e)
+                        | .error f => (.dead, showFault f)
+                      else (st, "bad")
+                  | _, _ => (st, "bad")
+              | none => (st, "bad-op")
+            else
+            match parseOp w with
+            | none => (st, "bad-op")
+            | some op =>
+              match step c m op with
+              | .error f => (.dead, showFault f)
+              | .ok (m', none) => (.sv c m', "bad")
+              | .ok (m', some ev) => (.sv c m', s!"{showRegs c m'} | {showEvents c ev} | {if c.trk then toString (m'.nctor - m'.ndtor) else "-"}")
         | _ =>
         match parseOp w with
         | none => (st, "bad-op")
